@@ -4,6 +4,8 @@ import NixModel.Lemmas.C10State
 import NixModel.Lemmas.C10Dict
 import NixModel.Pure.PropHandles
 import NixModel.Lemmas.C10Handles
+import NixModel.Generated.PropValsShape
+import NixModel.Lemmas.C10Shape
 
 /-!
 # C10 — metadata properties hold typed value lists; sections behave like ordered dicts
@@ -462,6 +464,130 @@ theorem C10_dict_delitem {st : State} (hr : Reachable st) {k : PKey}
     obtain ⟨_, hq2⟩ := List.mem_filter.mp hq
     simp at hq2 hn
     exact hq2 hn
+
+/-! ## the model is the interpretation of what the translator reads from the source
+
+`NixModel/Generated/PropValsShape.lean` is rewritten from `nixio/property.py`, `datatype.py`,
+`section.py` on every run (`harness/extract/propvals.py`).  The theorems below are *about the
+generated definitions*: an edit of the source that reorders, drops or adds a statement of the
+`values` setter / `extend_values` / `delete_values`, changes the `isinstance` chain of `get_dtype`
+or the collections the dictionary methods consult, changes the generated file and breaks them. -/
+
+open Shape in
+/-- `DataType.get_dtype`: the model's chain is the chain in the source, test for test. -/
+theorem C10_get_dtype_is_source_chain (c : PyClass) : getDtypeCls c = evalChain Gen.getDtypeChain c := by
+  cases c <;> rfl
+
+open Shape in
+/-- The `values` setter of the model is the statement list of the source, run in source order — for
+every property and every input. -/
+theorem C10_values_setter_is_source_order (p : PropRec) (inp : Input) :
+    setValues p inp = Shape.run Gen.valuesSetterBody p inp := by
+  cases inp with
+  | none => rfl
+  | type t => exact (setter_list p .other []).symm
+  | list vs =>
+    cases vs with
+    | nil => rfl
+    | cons v vs => exact (setter_list p v vs).symm
+  | scalar v =>
+    by_cases hv : v.isEmptyStr = true
+    · simp [Shape.run, Gen.valuesSetterBody, exec, Prim.sem, setValues, hv]
+    · have : Shape.run Gen.valuesSetterBody p (.scalar v) =
+          exec [.checkTypes, .checkText, .convert, .resizeTo, .writeAll, .stamp] { p := p, x := .list [v] } := by
+        simp [Shape.run, Gen.valuesSetterBody, exec, Prim.sem, hv, wrap, Input.asElem]
+      rw [this, setter_list]
+      simp [setValues, hv]
+  | ndarray dt shape data =>
+    cases shape with
+    | nil => rfl
+    | cons n ns =>
+      cases n with
+      | zero => rfl
+      | succ n =>
+        cases ns with
+        | nil =>
+          simp only [Shape.run, Gen.valuesSetterBody, exec, Prim.sem, wrap, setValues, Input.elems, inputCells]
+          cases h : checkNewValueTypes p.dtype (.ndarray dt [n + 1] data) with
+          | error e => rfl
+          | ok u => simp [textRefused]
+        | cons m ms =>
+          simp only [Shape.run, Gen.valuesSetterBody, exec, Prim.sem, wrap, setValues, Input.elems, inputCells]
+          cases h : checkNewValueTypes p.dtype (.ndarray dt ((n + 1) :: m :: ms) data) with
+          | error e => rfl
+          | ok u => simp [textRefused]
+
+open Shape in
+/-- `extend_values` of the model is the statement list of the source, run in source order. -/
+theorem C10_extend_values_is_source_order (p : PropRec) (inp : Input) :
+    extendValues p inp = Shape.run Gen.extendValuesBody p inp := by
+  simp only [Shape.run, Gen.extendValuesBody, exec, Prim.sem, extendValues]
+  cases h : checkNewValueTypes p.dtype inp with
+  | error e => rfl
+  | ok u =>
+    simp only [wrap_elems]
+    by_cases hn : textRefused p.dtype inp.elems = true
+    · simp [hn]
+    · cases hc : inputCells p.dtype inp with
+      | error e => simp [hn, wrap_cells, hc]
+      | ok cs => simp [hn, wrap_cells, hc, resize_take]
+
+open Shape in
+/-- `delete_values`. -/
+theorem C10_delete_values_is_source_order (p : PropRec) (x : Input) :
+    Shape.run Gen.deleteValuesBody p x = (p.clear, .ok ()) := rfl
+
+open Shape in
+/-- **In the source, every statement that can refuse precedes the first statement that changes the
+dataset** — in the `values` setter and in `extend_values` — and *therefore* (by
+`exec_refusal_unchanged`, which holds for any statement list with that order) whatever they raise,
+the stored values are what they were.  This derives `setValues_refused` / `extendValues_refused`
+from the order of the statements read from the source, not from the hand-written functions. -/
+theorem C10_source_checks_precede_writes :
+    checksFirst Gen.valuesSetterBody = true ∧ checksFirst Gen.extendValuesBody = true ∧
+    (∀ (p : PropRec) (inp : Input) (e : Err), (setValues p inp).2 = .error e → (setValues p inp).1 = p) ∧
+    (∀ (p : PropRec) (inp : Input) (e : Err), (extendValues p inp).2 = .error e → (extendValues p inp).1 = p) := by
+  have h1 : checksFirst Gen.valuesSetterBody = true := by decide
+  have h2 : checksFirst Gen.extendValuesBody = true := by decide
+  refine ⟨h1, h2, ?_, ?_⟩
+  · intro p inp e h
+    rw [C10_values_setter_is_source_order] at h ⊢
+    exact exec_refusal_unchanged _ { p := p, x := inp } e h1 h
+  · intro p inp e h
+    rw [C10_extend_values_is_source_order] at h ⊢
+    exact exec_refusal_unchanged _ { p := p, x := inp } e h2 h
+
+open Shape in
+/-- The dictionary methods consult the collections the source names, in the source's order:
+`items()` / iteration list `props` then `sections`; `in` asks `props` or `sections`; `len` counts
+`props`; `section[key]` is a child section exactly when the key is not in `props` but in `sections`
+and a property's value(s) otherwise, a list of the length the source names being unwrapped. -/
+theorem C10_dict_is_source_order (st : State) :
+    items st = Gen.itemsOrder.flatMap (Coll.listing st) ∧
+    (step st .iter).2 = .ok (.items (Gen.itemsOrder.flatMap (Coll.listing st))) ∧
+    (∀ k, contains st k = Gen.containsOrder.any (Coll.has st k)) ∧
+    secLen st = Gen.lenOf.size st ∧
+    (∀ k, (!Gen.getitemGuard.1.has st k && Gen.getitemGuard.2.has st k) = true →
+      getitem st k = (match findSec st k with | .ok x => .ok (.section x) | .error e => .error e)) ∧
+    (∀ k p, (!Gen.getitemGuard.1.has st k && Gen.getitemGuard.2.has st k) = false →
+      findProp st (.key k) = .ok p →
+      getitem st k = .ok (if p.vals.length = Gen.getitemUnwrapLen then
+        (match p.vals with | [c] => .scalar c | cs => .values cs) else .values p.vals)) := by
+  refine ⟨by simp [items, Gen.itemsOrder, Coll.listing], by simp [step, items, Gen.itemsOrder, Coll.listing],
+    fun k => by simp [contains, Gen.containsOrder, Coll.has], rfl, ?_, ?_⟩
+  · intro k h
+    simp only [Gen.getitemGuard, Coll.has] at h
+    simp only [getitem, h, if_true]
+    rfl
+  · intro k p h hf
+    simp only [Gen.getitemGuard, Coll.has] at h
+    simp only [getitem, h, hf, Gen.getitemUnwrapLen]
+    cases hv : p.vals with
+    | nil => simp
+    | cons c cs =>
+      cases cs with
+      | nil => simp
+      | cons d ds => simp
 
 /-! ## kept `Property` objects: one value list per property, whatever object is used -/
 
